@@ -198,7 +198,17 @@ def rule_last_statement(ctx):
             fetched_after = getattr(tab, "attrs", {}).get("of_call")
             ok_fetch = isinstance(fetched_after, Const) and fetched_after.v == len(tr.engine_sql) - 1
             lp = tr.cur.attrs.get(R().last_params)
-            ok_params = isinstance(lp, Sym) and lp.tag == "params"
+            # recorded statement is not the user's statement => it is one fakesnow generated (status / DESCRIBE rewrite): no placeholders
+            recorded_is_status = not same_val(last_sql, tr.engine_sql[0]) if last_sql is not None else False
+            ok_params = (isinstance(lp, Const) and lp.v is None) if recorded_is_status else (isinstance(lp, Sym) and lp.tag == "params")
+            if not ok_params and last_sql is not None and same_val(last_exec, last_sql) and ok_fetch:
+                ctx.ob("C06.g", f"{kind}: parameters recorded for description fit the recorded statement", False, site_loc(prog, "cursor", site), tagof(lp))
+                ctx.violation("C06.g", "cursor", "FakeSnowflakeCursor._execute", f"{kind}: recorded parameters {tagof(lp)[:30]} for a "
+                              f"{'status statement' if recorded_is_status else 'user statement'}", site_loc(prog, "cursor", site),
+                              f"after {kind} the statement recorded for description is "
+                              f"{'the status statement (no placeholders)' if recorded_is_status else 'the user statement'} but the recorded parameters are "
+                              f"`{tagof(lp)}`: with qmark binding description raises (prepared statement needs N parameters)")
+                continue
             ok = last_sql is not None and same_val(last_exec, last_sql) and ok_fetch and ok_params
             ctx.ob("C04.d", f"{kind}: collected result belongs to the statement recorded as _last_sql", ok,
                    site_loc(prog, "cursor", site), f"last executed `{text_of(last_exec)[:60]}` vs recorded `{text_of(last_sql)[:60]}`")
